@@ -73,11 +73,6 @@ type trow struct {
 	R mt.Mask
 	// Prepare edits a generated request message so that it stays on the RPC's plain path
 	Prepare func(m proto.Message)
-	// MaskIgnored: recorded finding - the RPC does not hand the request's update_mask to the store.
-	// A request whose judgement fails with its mask but holds as the same request without a mask is
-	// reported under ONE signature (<site>/update-mask-ignored); anything that fails without the mask
-	// too is another defect and keeps its own signature
-	MaskIgnored bool
 	// Tie: the outcome is compared with the model (servers without validation of their own and
 	// without derived fields)
 	Tie bool
@@ -319,7 +314,6 @@ func init() {
 	trows = append(trows, trow{
 		Name: "lightpb.MemoryDevice/UpdateBrightness", Root: "Brightness", Flag: "delta",
 		W: mt.Mask{Paths: []string{"level_percent", "brightness_tween.total_duration", "preset"}},
-		MaskIgnored: true,
 		// "if there's a tween in progress, clear the tween props"
 		R: mt.Mask{Paths: []string{"target_level_percent", "brightness_tween"}},
 		// requests without preset and without tween: the plain path of the RPC (the other two start
@@ -358,6 +352,36 @@ func init() {
 			}
 			return w
 		},
+		Tie: true,
+	})
+	// the same device, requests that carry a preset: the RPC writes the caller's message as it is
+	// (no delta, no cap, no reset paths, no timer) with the request's mask
+	trows = append(trows, trow{
+		Name: "lightpb.MemoryDevice/UpdateBrightness+preset", Root: "Brightness",
+		W: mt.Mask{Paths: []string{"level_percent", "brightness_tween.total_duration", "preset"}},
+		Prepare: func(m proto.Message) {
+			b := m.(*traits.Brightness)
+			if b.Preset == nil {
+				b.Preset = &traits.LightPreset{}
+			}
+		},
+		New: func() tserver {
+			d := lightpb.NewMemoryDevice()
+			return tserver{
+				update: func(m proto.Message, fm *fieldmaskpb.FieldMask, flag bool) (proto.Message, error) {
+					r, err := d.UpdateBrightness(ctxBg, &traits.UpdateBrightnessRequest{Name: "n", Brightness: m.(*traits.Brightness), UpdateMask: fm})
+					if r == nil {
+						return nil, err
+					}
+					return r, err
+				},
+				get: func() proto.Message {
+					r, _ := d.GetBrightness(ctxBg, &traits.GetBrightnessRequest{Name: "n"})
+					return r
+				},
+			}
+		},
+		Tie: true,
 	})
 }
 
@@ -483,25 +507,7 @@ func copyField(dst, src proto.Message, name string) {
 // judge evaluates the property on one trait call: the write-semantics monitor with the server's
 // documented writable fields, the request's mask and the message the flag asks to be written.
 func (c tcase) judge(row trow, mon *lib.Monitor, out tout) (derived []string) {
-	if !row.MaskIgnored || c.Call.M.Nil {
-		return c.judgeWith(row, c.Call.M, mon, out)
-	}
-	asStated := lib.NewMonitor("as-stated", "")
-	derived = c.judgeWith(row, c.Call.M, asStated, out)
-	if len(asStated.Violations) == 0 {
-		return derived
-	}
-	unmasked := lib.NewMonitor("unmasked", "")
-	c.judgeWith(row, mt.NilMask(), unmasked, out)
-	if len(unmasked.Violations) > 0 {
-		for _, v := range unmasked.Violations {
-			mon.Violate(v.Signature, v.What+" (judged as the same request without update_mask)", c, v.Expected, v.Observed)
-		}
-		return derived
-	}
-	v := asStated.Violations[0]
-	mon.Violate("C05/trait/"+row.Name+"/update-mask-ignored", "the RPC behaves as the same request without update_mask: "+v.What, c, v.Expected, v.Observed)
-	return derived
+	return c.judgeWith(row, c.Call.M, mon, out)
 }
 
 func (c tcase) judgeWith(row trow, M mt.Mask, mon *lib.Monitor, out tout) (derived []string) {
@@ -542,6 +548,9 @@ func (c tcase) modelLine(row trow, out tout) string {
 		keys = strings.Join(row.IntKeys, ",")
 	case row.Effective != nil:
 		src = row.Effective(out.Before, out.Written, c.Call.Flag)
+	}
+	if len(row.R.Paths) > 0 {
+		return fmt.Sprintf("iset %d %s %s %s %s %s %s _", ty, row.W.Enc(), c.Call.M.Enc(), row.R.Enc(), mt.CanonMsg(out.Before), mt.CanonMsg(src), keys)
 	}
 	return fmt.Sprintf("iset %d %s %s %s %s %s _", ty, row.W.Enc(), c.Call.M.Enc(), mt.CanonMsg(out.Before), mt.CanonMsg(src), keys)
 }
